@@ -9,7 +9,11 @@ Import ListNotations.
 
 Inductive kind : Type := KInit | KTimer | KTelem | KPacket | KFinish.
 Inductive dres : Type := RContinue | RInterrupt | RNone.
-Inductive reop : Type := ReReg (inst : nat) (k : kind) (h : nat) | ReUnreg (inst : nat) (k : kind) (h : nat).
+(** what a running handler may do: (un)register handlers, or deliver a callback itself (a nested dispatch) *)
+Inductive reop : Type :=
+| ReReg (inst : nat) (k : kind) (h : nat)
+| ReUnreg (inst : nat) (k : kind) (h : nat)
+| ReDisp (inst : nat) (k : kind).
 
 Record wrapper : Type := mkW { w_init : list nat; w_timer : list nat; w_telem : list nat; w_packet : list nat; w_finish : list nat }.
 Definition w_empty : wrapper := mkW [] [] [] [] [].
@@ -41,7 +45,9 @@ Inductive ditem : Type :=
 | DCall (inst : nat) (k : kind) (h : nat)       (* handler h invoked for instance inst *)
 | DProto (inst : nat) (k : kind)                (* the protocol's own method invoked *)
 | DValueError                                   (* unregister of a handler that is not registered *)
-| DNoWrapper.                                   (* operation on an instance without dispatcher *)
+| DNoWrapper                                    (* operation on an instance without dispatcher *)
+| DNest (inst : nat) (k : kind) (sub : list ditem)   (* a dispatch started from inside a running handler *)
+| DOutOfFuel.                                   (* nesting deeper than the model's fuel: never compared *)
 
 Fixpoint upd {X : Type} (n : nat) (x : X) (l : list X) : list X :=
   match l, n with
@@ -86,10 +92,17 @@ Definition d_unregister (s : dstate) (inst : nat) (k : kind) (h : nat) : dstate 
   | None => (s, [DNoWrapper])
   end.
 
+Section Dispatch.
+(** behaviour of handler [h] at its [n]-th invocation (0-based): result and re-entrant operations *)
+Variable beh : nat -> nat -> dres * list reop.
+(** how a dispatch started from inside a handler behaves; tied to the dispatcher itself by [dispatchF] below *)
+Variable disp : dstate -> nat -> kind -> dstate * list ditem.
+
 Definition apply_reop (s : dstate) (o : reop) : dstate * list ditem :=
   match o with
   | ReReg i k h => d_register s i k h
   | ReUnreg i k h => d_unregister s i k h
+  | ReDisp i k => let '(s1, sub) := disp s i k in (s1, [DNest i k sub])
   end.
 
 Fixpoint apply_reops (s : dstate) (ops : list reop) : dstate * list ditem :=
@@ -97,10 +110,6 @@ Fixpoint apply_reops (s : dstate) (ops : list reop) : dstate * list ditem :=
   | [] => (s, [])
   | o :: r => let '(s1, i1) := apply_reop s o in let '(s2, i2) := apply_reops s1 r in (s2, i1 ++ i2)
   end.
-
-Section Dispatch.
-(** behaviour of handler [h] at its [n]-th invocation (0-based): result and re-entrant operations *)
-Variable beh : nat -> nat -> dres * list reop.
 
 Definition bump (s : dstate) (h : nat) : dstate :=
   mkD (d_wrappers s) (upd h (S (nth h (d_calls s) 0)) (d_calls s)).
@@ -123,12 +132,25 @@ Definition d_dispatch (s : dstate) (inst : nat) (k : kind) : dstate * list ditem
   | None => (s, [DProto inst k])          (* not wrapped: the protocol's method itself *)
   end.
 
+End Dispatch.
+
+(** the dispatcher with nested dispatches: a handler's [ReDisp] runs the dispatcher itself, one level of fuel down *)
+Fixpoint dispatchF (beh : nat -> nat -> dres * list reop) (fuel : nat) : dstate -> nat -> kind -> dstate * list ditem :=
+  match fuel with
+  | 0 => fun s _ _ => (s, [DOutOfFuel])
+  | S f => d_dispatch beh (dispatchF beh f)
+  end.
+
+Section Run.
+Variable beh : nat -> nat -> dres * list reop.
+Variable fuel : nat.
+
 Definition d_step (s : dstate) (o : dop) : dstate * list ditem :=
   match o with
   | DCreate i => (d_create s i, [])
   | DRegister i k h => d_register s i k h
   | DUnregister i k h => d_unregister s i k h
-  | DDispatch i k => d_dispatch s i k
+  | DDispatch i k => dispatchF beh fuel s i k
   end.
 
 Fixpoint d_run (s : dstate) (ops : list dop) : dstate * list (list ditem) :=
@@ -137,7 +159,8 @@ Fixpoint d_run (s : dstate) (ops : list dop) : dstate * list (list ditem) :=
   | o :: r => let '(s1, it) := d_step s o in let '(s2, its) := d_run s1 r in (s2, it :: its)
   end.
 
-End Dispatch.
+End Run.
+
 
 (** [n] protocol instances, none wrapped yet; [m] handlers never called *)
 Definition d_init (n m : nat) : dstate := mkD (repeat None n) (repeat 0 m).
